@@ -425,6 +425,7 @@ def run(ctx):
             ("abandoned", lambda: base.abandoned_stage(ctx, "C09")),
             ("interleaving", lambda: interleaving_stage(ctx)),
             ("unevaluable-directive", lambda: unevaluable_directive_stage(ctx)),
+            ("e2-model", lambda: __import__("corr.C08_e2", fromlist=["e2_stage"]).e2_stage(ctx, "C09", kinds=("mutation",))),
             ("real-pool", lambda: base.real_pool_stage(ctx, "C09", extra_oracle=c09_oracle, n_random=4 if ctx.tier == "quick" else 30,
                                                      kinds=("mutation",))),
         ], replaying=getattr(ctx, "_c09_replay_stage", None))
@@ -448,6 +449,11 @@ def replay(ctx, data):
     if data.get("input", {}).get("probe") == "many-root-fields":
         before = len(ctx.found)
         base.probe_many_root_fields(ctx, "C09", kinds=("mutation",))
+        return len(ctx.found) == before
+    if data.get("input", {}).get("stream") == "e2-model":
+        from corr import C08_e2
+        before = len(ctx.found)
+        C08_e2.e2_stage(ctx, "C09", only=data["input"].get("case"), kinds=("mutation",))
         return len(ctx.found) == before
     if data.get("input", {}).get("stream") == "unevaluable-directive":
         before = len(ctx.found)
